@@ -90,7 +90,9 @@ def case(draw, tier="quick"):
     return {"ladder": ladder, "sels": sels, "other": other, "n_active": ns + draw(st.integers(0, 3)),
             "n_winners": draw(st.integers(1, 3)), "live": draw(st.integers(0, 3)) == 0,
             "probe_sel": draw(st.integers(0, ns - 1)), "probe_order": draw(st.integers(0, 5)),
-            "new": draw(order_spec(ladder))}
+            "new": draw(order_spec(ladder)),
+            # the second strategy (whose orders must be ignored) may carry the SAME name: two instances of one class
+            "same_name": draw(st.integers(0, 3)) == 0}
 
 
 def build_order(strategy, market_id, sel, hc, spec, ladder, client, live):
@@ -176,7 +178,7 @@ def check(c):
         else:
             client = clients.SimulatedClient(username="s")
         strat = BaseStrategy(market_filter={}, name="S")
-        other = BaseStrategy(market_filter={}, name="O")
+        other = BaseStrategy(market_filter={}, name="S" if c.get("same_name") else "O")
         mid = "1.100000000"
         blotter = Blotter(mid)
         objs = {}
@@ -195,6 +197,8 @@ def check(c):
             apply_state(o, spec, live)
         mb = types.SimpleNamespace(number_of_active_runners=c["n_active"], number_of_winners=c["n_winners"])
         classes = {"live" if live else "simulated", "ladder:" + ladder}
+        if c.get("same_name") and c["other"]:
+            classes.add("other-strategy-with-the-same-name")
         if any(o.get("resub") for s_ in c["sels"] for o in s_["orders"]):
             classes.add("order-resubmitted-after-refusal")
         nontrivial = False
